@@ -271,6 +271,15 @@ def standardEkuOids : List (List Nat) :=
 
 def sameSet [DecidableEq α] (a b : List α) : Bool := a.all (b.contains ·) && b.all (a.contains ·)
 
+/-- the values of the extensions with identifier `o`, in order -/
+def valOf (l : List Ext) (o : List Nat) : List ExtValue := (l.filter (fun e => e.oid == o)).map (·.value)
+
+/-- the purposes named by extended-key-usage values -/
+def ekuOids (l : List ExtValue) : List (List Nat) :=
+  l.flatMap (fun v => match v with
+    | .eku oids => oids
+    | _ => [])
+
 /-- C06, issuance part, read off the two artefacts alone (no parameters, no model): the
     certificate issued from an accepted request carries the request's subject, SANs, key usages
     and extended key usages, and a request asking for anything else must not have been
@@ -288,10 +297,8 @@ def c06IssueClauses (csr certTbs : Bytes) : List String :=
       (match reqExts with
        | none => ["C06:extension-request-decodes"]
        | some rx =>
-         let val := fun (l : List Ext) (o : List Nat) => (l.filter (fun e => e.oid == o)).map (·.value)
-         let ekuOf := fun (l : List Ext) => (val l oidEku).flatMap (fun v => match v with
-           | .eku oids => oids
-           | _ => [])
+         let val := valOf
+         let ekuOf := fun (l : List Ext) => ekuOids (valOf l oidEku)
          clause "C06:issued-subject-equals-requested" (c.subject == r.subject) ++
          clause "C06:issued-san-equals-requested" (val c.exts oidSan == val rx oidSan) ++
          clause "C06:issued-key-usage-equals-requested" (val c.exts oidKeyUsage == val rx oidKeyUsage) ++
